@@ -373,6 +373,9 @@ class GameCoordinator:
                     self.logger.error(
                         f"Error when converting msg to Action using Action.from_json():{e}, {message}"
                     )
+                    # the message can't be processed - inform the agent and wait for the next message
+                    await self._send_bad_request(agent_addr, f"Invalid message: {e}")
+                    continue
                 match action.type:  # process action based on its type
                     case ActionType.JoinGame:
                         self.logger.debug(f"Start processing of ActionType.JoinGame by {agent_addr}")
@@ -391,6 +394,18 @@ class GameCoordinator:
                         self.logger.warning(f"Unsupported action type: {action}!")
         self.logger.info("\tAction processing task stopped.")
             
+    async def _send_bad_request(self, agent_addr: tuple, message: str)->None:
+        """
+        Answers the agent with GameStatus.BAD_REQUEST (if the agent is still connected).
+        """
+        if agent_addr in self._agent_response_queues:
+            output_message_dict = {
+                "to_agent": agent_addr,
+                "status": str(GameStatus.BAD_REQUEST),
+                "message": message,
+            }
+            await self._agent_response_queues[agent_addr].put(self.convert_msg_dict_to_json(output_message_dict))
+
     async def _process_join_game_action(self, agent_addr: tuple, action: Action)->None:
         """
         Method for processing Action of type ActionType.JoinGame
